@@ -16,7 +16,7 @@ use super::super::chain::{lock_script, type_script, Chain};
 use super::super::out::{hex, Out, RunCfg};
 use super::super::refidx::{self, Registered, ST};
 use super::super::rng::Rng;
-use super::super::world::{NoHook, World};
+use super::super::world::World;
 use super::common::*;
 
 pub const R_CONVERGE: u64 = 250;
@@ -235,6 +235,7 @@ pub fn run(kind: Kind, cfg: &RunCfg, out: &Out) {
     }
 }
 
+
 fn scenario(kind: Kind, seed: u64, k: u64, out: &Out) {
     let mut rng = Rng::new(seed);
     let (now, base_ts) = time_base();
@@ -280,7 +281,7 @@ fn scenario(kind: Kind, seed: u64, k: u64, out: &Out) {
     }
     sc.actions.push(format!("set_scripts(all, {} scripts)", regs.len()));
     w.connect_all();
-    let mut hook = NoHook;
+    let mut hook = ForkWatch::default();
     let n_actions = rng.range(1, 6);
     let mut forked = false;
     let mut long_fork = false;
@@ -439,6 +440,20 @@ fn scenario(kind: Kind, seed: u64, k: u64, out: &Out) {
                         continue;
                     }
                     let at = *rng.pick(&cands);
+                    // sometimes the user registers one more script (from a lower start) just before the switch:
+                    // the filter cursor is then below the fork point while the kept scripts hold data above it
+                    if rng.chance(1, 3) {
+                        let (s, st) = random_script(&mut rng, &w.chains[0]);
+                        if !model.contains_key(&skey(&s, st)) {
+                            let start = rng.range(0, at);
+                            let r: Registered = vec![(s.clone(), st, start)];
+                            set_scripts(&w, &r, rpc_cmd("partial"));
+                            model_apply(&mut model, "partial", &r);
+                            sc.starts.insert(skey(&s, st), start);
+                            sc.actions.push(format!("set_scripts(partial, new script, start {}) right before the fork", start));
+                            sc.flag("partial-before-fork");
+                        }
+                    }
                     let minf = w.c().storage.get_min_filtered_block_number();
                     let pending = w.matched_pending();
                     net.fork(&mut w, at, main_tip - at + rng.range(1, 4), rng.next_u64() | 1);
@@ -447,9 +462,11 @@ fn scenario(kind: Kind, seed: u64, k: u64, out: &Out) {
                     if pending {
                         sc.flag("matched-pending-at-fork");
                     }
-                    if minf > at {
+                    let max_script_number = get_scripts(&w).iter().map(|(_, _, n)| *n).max().unwrap_or(0);
+                    if minf > at || max_script_number > at {
                         sc.flag("filtered-beyond-fork-point");
                     }
+                    hook.switched = Some((net.main, at));
                 }
                 forked = true;
                 net.grow(&mut w, 1);
@@ -462,6 +479,12 @@ fn scenario(kind: Kind, seed: u64, k: u64, out: &Out) {
             }
             sc.check_reported_numbers(&w, net.main, "mid-sync");
         }
+    }
+    if hook.rebased_start {
+        sc.flag("rebased-start");
+    }
+    if hook.reorg_section_requested {
+        sc.flag("reorg-section-requested");
     }
     if w.dead && !long_fork {
         if let Some((ctx, p)) = w.panics.first() {
@@ -521,6 +544,12 @@ fn scenario(kind: Kind, seed: u64, k: u64, out: &Out) {
         // the honest chain keeps growing (avoids the documented 60 s unchanged-last-state disconnect)
         net.grow(&mut w, 1);
         w.connect_all();
+    }
+    if hook.rebased_start {
+        sc.flag("rebased-start");
+    }
+    if hook.reorg_section_requested {
+        sc.flag("reorg-section-requested");
     }
     out.eval(1);
     out.cell(&format!("{}|{}|len{}", prop, sc.flags_str(), super::c05::bucket(len)));
